@@ -420,6 +420,13 @@ impl System {
         pipe_loc_name(&Loc::At(at))
     }
 
+    fn pipe_loc_threaded(&self) -> String {
+        match self.at_gate {
+            Some(at) => pipe_loc_name(&Loc::At(at)),
+            None => "idle".to_string(),
+        }
+    }
+
     /// Threaded mode: lets the second thread run freely and decides who is stuck for good.
     fn run_to_quiescence_threaded(&mut self) {
         let gate = self.thread.as_ref().unwrap().1.clone();
@@ -515,7 +522,13 @@ fn sub_loc_name(loc: &Loc, register_first: bool) -> String {
         Loc::At("h.sent") => if register_first { "create" } else { "check" }.into(),
         Loc::At("task.ready.after_create") => "check".into(),
         Loc::At("task.ready.after_check") => if register_first { "await" } else { "window" }.into(),
-        Loc::Blocked(Some("task.ready.after_check")) => "await".into(),
+        // waiting for the result mutex in the first check (another reader or the writer holds it)
+        Loc::Blocked(Some("task.ready.after_create")) => "c_wait".into(),
+        // after the check: waiting for the notification (check-first code: always; create-first
+        // code: only in free runs) or, once notified, for the result mutex
+        Loc::Blocked(Some("task.ready.after_check")) => if register_first { "t_wait" } else { "await" }.into(),
+        // re-read after the wake-up: parked while HOLDING the result mutex
+        Loc::At("task.ready.holding_result") => "t_locked".into(),
         Loc::At("h.returned") => "track".into(),
         Loc::Done => "finished".into(),
         other => format!("{other:?}"),
@@ -569,8 +582,8 @@ fn judge(sys: &System, calls: &BTreeMap<String, Vec<String>>, out: &mut Outcome,
                     sig,
                     format!(
                         "submitter {s} never returns: all actors are idle, no waker fired, the tracker holds no task, \
-                         yet its call is still pending at {loc:?} (result slot was filled and notify_waiters() ran \
-                         before this waiter was registered)"
+                         yet its call is still pending at {loc:?} (its task's result is set and the one \
+                         notify_waiters() call is over: nothing will ever wake this waiter)"
                     ),
                     case.clone(),
                 )
@@ -617,7 +630,16 @@ fn replay(args: &Args) {
 
     out.count(if threaded { "mode_threads" } else { "mode_single_thread" });
     for (bi, b) in behaviours.iter().enumerate() {
-        if bi % stride != 0 {
+        // (with a stride: all schedules in which two holders of one task collide on the result
+        // mutex are kept)
+        let collides = b["steps"].as_array().expect("steps").iter().any(|st| st["act"] == "WaitResult" || st["act"] == "WakeWait");
+        if bi % stride != 0 && !collides {
+            continue;
+        }
+        // a submitter starts waiting for the result mutex while its holder is inside a critical
+        // section without schedule point: not forceable on one thread (see NOTES.md)
+        if b["steps"].as_array().expect("steps").iter().any(|st| st["hp"] == false) {
+            out.count("skipped_holder_not_parked");
             continue;
         }
         out.eval();
@@ -626,14 +648,19 @@ fn replay(args: &Args) {
         let spec_rf = b["cfg"]["registerFirst"].as_bool().unwrap_or(true);
         let mut sys = build(&calls, &BTreeMap::new(), cap, threaded);
         let mut nontrivial = false;
+        let mut collision = false;
         let mut mismatch: Option<String> = None;
+
 
         for (k, st) in b["steps"].as_array().expect("steps").iter().enumerate() {
             let actor = st["actor"].as_str().unwrap();
             let act = st["act"].as_str().unwrap();
             out.count(&format!("act_{act}"));
-            if act == "CheckNone" {
+            if act == "ReadNone" {
                 nontrivial = true;
+            }
+            if act == "WaitResult" || act == "WakeWait" {
+                collision = true;
             }
             // The spec creates the Notified before the check but the code under test checks
             // first (the defect as found, or a regression): there is no separate creation step
@@ -641,8 +668,18 @@ fn replay(args: &Args) {
             if spec_rf != code_rf && act == "CreateNotified" {
                 continue;
             }
+            // The critical sections of the first check (lock, look, unlock) and of the writer
+            // (lock, set, unlock) contain no schedule point: the real future runs them in the
+            // poll that takes the lock.  The remaining spec steps of the section are not polled,
+            // and the comparison with the spec waits for the section's last step.  (Steps of
+            // other actors in between commute with the rest of the section: whatever needs the
+            // mutex is disabled in the spec while it is held; behaviours in which somebody starts
+            // to WAIT for a holder that is not parked were filtered out above.)
+            let no_poll = matches!(act, "ReadSome" | "ReadNone" | "UnlockReturn" | "Unlock" | "PWrite" | "PUnlockResult");
+            let no_compare = matches!(act, "LockResult" | "Granted" | "ReadSome" | "ReadNone" | "PLockResult" | "PWrite");
             let got_pc = if act == "Cancel" {
-                // the caller drops the suspended `process` future (and with it a created Notified)
+                // the caller drops the suspended `process` future (and with it a created Notified,
+                // a queued lock request or a held guard)
                 let a = sys.actors.get_mut(actor).unwrap();
                 a.fut = None;
                 a.loc = Loc::Done;
@@ -651,12 +688,14 @@ fn replay(args: &Args) {
                 sh.held.insert(actor.to_string(), 0);
                 "finished".to_string()
             } else if actor == "pipe" && threaded {
-                sys.pipe_step_threaded(act)
+                if no_poll { sys.pipe_loc_threaded() } else { sys.pipe_step_threaded(act) }
             } else {
                 let a = sys.actors.get_mut(actor).unwrap();
-                a.poll();
-                if !spec_rf && code_rf && act.starts_with("Check") {
-                    a.poll(); // the code has creation + check where the (defect) spec has the check alone
+                if !no_poll {
+                    a.poll();
+                    if !spec_rf && code_rf && act == "LockResult" {
+                        a.poll(); // the code has creation + check where the (defect) spec has the check alone
+                    }
                 }
                 if actor == "pipe" {
                     pipe_loc_name(&a.loc)
@@ -664,6 +703,9 @@ fn replay(args: &Args) {
                     sub_loc_name(&a.loc, code_rf)
                 }
             };
+            if no_compare {
+                continue;
+            }
             let want_pc = st["pc"].as_str().unwrap().to_string();
             let sh = sys.shared.borrow();
             let mut bad = None;
@@ -725,6 +767,9 @@ fn replay(args: &Args) {
                 }
             }
         }
+        if collision {
+            out.count("behaviours_with_result_mutex_collision");
+        }
         if nontrivial {
             out.mark_distinct(
                 b["steps"]
@@ -781,6 +826,7 @@ fn record(args: &Args) {
         w.event(json!({"ev": "Reset", "run": run, "calls": table, "cap": cap, "registerFirst": code_rf}));
         let mut sched = Vec::new();
         let mut waited = false;
+        let mut collisions = 0u64;
         loop {
             // runnable = not finished and (at a point / not started / blocked with a fired waker)
             let runnable: Vec<String> = sys
@@ -795,16 +841,37 @@ fn record(args: &Args) {
             if runnable.is_empty() {
                 break;
             }
-            let name = rng.pick(&runnable).clone();
+            // bias: while a reader is parked HOLDING a result mutex, prefer (1 in 2) another
+            // submitter of the same task that is about to look at the result
+            let mut name = rng.pick(&runnable).clone();
+            {
+                let sh = sys.shared.borrow();
+                let holders: Vec<usize> = sys
+                    .actors
+                    .iter()
+                    .filter(|(_, a)| a.loc == Loc::At("task.ready.holding_result"))
+                    .filter_map(|(n, _)| sh.held.get(n).copied())
+                    .collect();
+                let rivals: Vec<String> = runnable
+                    .iter()
+                    .filter(|n| {
+                        let a = &sys.actors[*n];
+                        matches!(a.last_point(), Some("task.ready.after_create") | Some("task.ready.after_check"))
+                            && a.loc != Loc::At("task.ready.holding_result")
+                            && sh.held.get(*n).is_some_and(|h| holders.contains(h))
+                    })
+                    .cloned()
+                    .collect();
+                if !rivals.is_empty() && rng.chance(1, 2) {
+                    name = rng.pick(&rivals).clone();
+                }
+            }
             let a = sys.actors.get_mut(&name).unwrap();
             let from = a.loc.clone();
             a.wakes.0.store(0, Ordering::SeqCst);
             let progressed = a.poll();
             let to = a.loc.clone();
             sched.push(name.clone());
-            if !progressed && matches!(from, Loc::Blocked(_)) {
-                continue; // spurious wake-up: nothing happened
-            }
             let sh = sys.shared.borrow();
             if name == "pipe" {
                 // a pipeline poll that only blocks on the empty channel is no spec step
@@ -817,18 +884,26 @@ fn record(args: &Args) {
                 if to == Loc::Done && more[&name] {
                     continue;
                 }
-                let pc = sub_loc_name(&to, code_rf);
+                let mut pc = sub_loc_name(&to, code_rf);
+                if !progressed {
+                    match (&from, &to) {
+                        // first check: the result mutex is held by somebody else -> queued
+                        (Loc::At("task.ready.after_create"), Loc::Blocked(Some("task.ready.after_create"))) => {
+                            collisions += 1;
+                        }
+                        // check-first code: leaving the window = creating the Notified, then it waits
+                        (Loc::At("task.ready.after_check"), Loc::Blocked(Some("task.ready.after_check"))) if !code_rf => {}
+                        // after the check: not notified yet (nothing happened), or notified and the
+                        // result mutex is busy (queued) -- the trace specification tells which
+                        (_, Loc::Blocked(Some("task.ready.after_check"))) => {
+                            pc = "blocked_after_check".to_string();
+                        }
+                        // spurious wake-up, full channel, tracker lock: no spec step happened
+                        _ => continue,
+                    }
+                }
                 if pc == "await" || pc == "window" {
                     waited = true;
-                }
-                // blocked on the full channel / on the tracker lock: no spec step happened
-                // (check-first code only: leaving the window = creating the Notified, then it waits)
-                if !progressed
-                    && (code_rf
-                        || from != Loc::At("task.ready.after_check")
-                        || to != Loc::Blocked(Some("task.ready.after_check")))
-                {
-                    continue;
                 }
                 let rets = sh.rets.get(&name).cloned().unwrap_or_default();
                 let last = rets.last().copied().unwrap_or((0, 0));
@@ -838,6 +913,9 @@ fn record(args: &Args) {
                     "last": {"id": if last.0 == 0 { "none".to_string() } else { format!("i{}", last.0) }, "run": last.1},
                 }));
             }
+        }
+        if collisions > 0 {
+            out.count_by("result_mutex_collisions", collisions);
         }
         out.eval();
         let case = json!({"calls": calls, "cap": cap, "schedule": sched});
